@@ -38,6 +38,10 @@ var c07OrdinaryMuts = []string{
 var c07FundingMuts = []string{
 	"none", "funding:debit-wrong-party", "funding:debit-only-peer", "funding:second-suballoc", "funding:indexmap-added", "funding:amount+1", "funding:other-id",
 	"funding:touch-other-suballoc", "funding:actor-other", "sig:other-state",
+	// two messages: the sub-channel proposal carries a funding agreement that
+	// differs from its initial balances (H pays everything), and the funding
+	// update debits accordingly
+	"funding:debit-only-peer+agreement",
 	// not an edit but a sequence: the funding update is held back, a payment to
 	// H goes first, then the funding update computed from the state before
 	// that payment is presented as the next version
@@ -299,6 +303,23 @@ func (c *c07state) intercept(from, to string, e *wire.Envelope) (*wire.Envelope,
 	if from != "A" || to != "B" { // node B plays the honest H
 		return e, true
 	}
+	if sp, isProp := e.Msg.(*client.SubChannelProposalMsg); isProp {
+		c.mu.Lock()
+		cr := c.cr
+		c.mu.Unlock()
+		if cr != nil && cr.armed && cr.mut == "funding:debit-only-peer+agreement" && sp.Parent == cr.ch {
+			fa := sp.InitBals.Balances.Clone()
+			for a := range fa {
+				if len(fa[a]) == 2 {
+					fa[a][1] = new(big.Int).Add(fa[a][0], fa[a][1])
+					fa[a][0] = new(big.Int)
+				}
+			}
+			sp.FundingAgreement = fa
+			c.p.s.Event("ADV", "adv:craft", "sub-channel proposal with a funding agreement that differs from its initial balances")
+		}
+		return e, true
+	}
 	m, ok := e.Msg.(*client.ChannelUpdateMsg)
 	if !ok {
 		return e, true
@@ -498,7 +519,7 @@ func (c *c07state) mutate(cr *craft, m *client.ChannelUpdateMsg, before *channel
 			s.Locked[0], s.Locked[1] = s.Locked[1], s.Locked[0]
 		}
 	// ---- funding of a sub-channel --------------------------------------------------
-	case "funding:debit-wrong-party", "funding:debit-only-peer":
+	case "funding:debit-wrong-party", "funding:debit-only-peer", "funding:debit-only-peer+agreement":
 		// shift the debit from A to H, totals preserved
 		for a := range s.Balances {
 			d := new(big.Int).Sub(before.Balances[a][aIdx], s.Balances[a][aIdx]) // what A was debited
